@@ -129,7 +129,7 @@ class G:
         k = r.random()
         if k < 0.13:
             whens = [(self.simple_cond(), self.atom()) for _ in range(r.randint(1, 2))]
-            els = self.atom() if r.random() < 0.6 else None
+            els = (self.atom() if r.random() < 0.7 else self.pick([("NULL", lit("NULL")), ("null", lit("null"))])) if r.random() < 0.6 else None
             return "CASE " + " ".join("WHEN %s THEN %s" % (c[0], v[0]) for c, v in whens) + (" ELSE " + els[0] if els else "") + " END", \
                 N("ASTCaseConditionExpression", cases=tuple(N("ASTCaseConditionItem", when=c[1], then=v[1]) for c, v in whens), else_value=els[1] if els else None)
         if k < 0.22:
